@@ -130,6 +130,12 @@ pub struct Case {
     /// (OnchainValidatorFactory around the simple validator with this case's policy)
     #[serde(default)]
     pub onchain: bool,
+    /// start-up allowlist scenario (wire): a signer whose HandlerBuilder was given a start-up
+    /// allowlist with one address ("only used if node is new"), (protocol selector, run-time
+    /// edit: 0 none, 1 remove [A], 2 remove [A, absent], 3 remove [absent, A], number of restarts
+    /// with the same start-up configuration 0..2), then a SignWithdrawal paying everything to A
+    #[serde(default)]
+    pub startup: Option<(u8, u8, u8)>,
 }
 
 /// Input of a wire-group transaction, as CLN's / LDK's hsmd client describes it.
@@ -406,6 +412,90 @@ fn refusal_reason(msg: &str) -> String {
 }
 
 impl C08 {
+    /// Start-up allowlist scenario (see Case::startup).
+    fn run_startup(&self, pv: u8, edit: u8, restarts: u8, st: &mut CaseStats, ctx: &Ctx) -> Result<(), Violation> {
+        use crate::props::proto::{Negotiation, ProtoWorld, To};
+        use bitcoin::psbt::Psbt;
+        use vls_protocol::model::Utxo;
+        use vls_protocol::msgs::{self, Message};
+        use vls_protocol::psbt::StreamedPSBT;
+        use vls_protocol::serde_bolt::{Array, Octets, WithSize};
+        let net = Network::Testnet;
+        let secp = bitcoin::secp256k1::Secp256k1::new();
+        let cfg = WorldCfg::default_testnet();
+        let a = Address::p2wpkh(&CompressedPublicKey(PublicKey::from_secret_key(&secp, &SecretKey::from_slice(&[0x61; 32]).unwrap())), net);
+        let absent = Address::p2wpkh(&CompressedPublicKey(PublicKey::from_secret_key(&secp, &SecretKey::from_slice(&[0x62; 32]).unwrap())), net);
+        let (ea, eb) = (format!("address:{}", a), format!("address:{}", absent));
+        let pver = 4 + (pv % 3) as u32;
+        let mut pw = ProtoWorld::new_configured(cfg, pver, Negotiation::SignerCap, vec![ea.clone()], true);
+        let listed = |pw: &ProtoWorld| pw.node().allowlist().map(|l| l.contains(&ea)).unwrap_or(false);
+        if !listed(&pw) {
+            // harness precondition: a new node takes the start-up allowlist
+            return ctx.report(st, Violation::new("C08:wire:startup-allowlist:not-installed-on-new-node", "the start-up allowlist of a new node was not installed".to_string()));
+        }
+        let edit = edit % 4;
+        let node = pw.node().clone();
+        let r = match edit {
+            0 => Ok(()),
+            1 => node.remove_allowlist(&[ea.clone()]),
+            2 => node.remove_allowlist(&[ea.clone(), eb.clone()]),
+            _ => node.remove_allowlist(&[eb.clone(), ea.clone()]),
+        };
+        if r.is_err() {
+            st.class("startup:removal-refused");
+            return Ok(());
+        }
+        let restarts = restarts % 3;
+        for _ in 0..restarts {
+            if !pw.restart().is_ok() {
+                st.class("startup:restart-failed");
+                return Ok(());
+            }
+        }
+        st.class(format!("startup:edit{}:restarts{}", edit, restarts));
+        // one wallet coin, everything but the fee to A
+        let keyindex = 3u32;
+        let wxpub = pw.node().get_account_extended_pubkey();
+        let pk = CompressedPublicKey(wxpub.derive_pub(&secp, &path_of(keyindex)).unwrap().public_key);
+        let spk = Address::p2wpkh(&pk, net).script_pubkey();
+        let v = 100_000u64;
+        let prev_tx = Transaction {
+            version: Version::TWO,
+            lock_time: LockTime::ZERO,
+            input: vec![TxIn { previous_output: OutPoint { txid: Txid::from_byte_array([0xc9; 32]), vout: 0 }, script_sig: ScriptBuf::new(), sequence: Sequence::MAX, witness: Witness::new() }],
+            output: vec![TxOut { value: Amount::from_sat(v), script_pubkey: spk.clone() }],
+        };
+        let tx = Transaction {
+            version: Version::TWO,
+            lock_time: LockTime::ZERO,
+            input: vec![TxIn { previous_output: OutPoint { txid: prev_tx.compute_txid(), vout: 0 }, script_sig: ScriptBuf::new(), sequence: Sequence::MAX, witness: Witness::new() }],
+            output: vec![TxOut { value: Amount::from_sat(v - 500), script_pubkey: a.script_pubkey() }],
+        };
+        let mut psbt = Psbt::from_unsigned_tx(tx).expect("unsigned tx");
+        psbt.inputs[0].witness_utxo = Some(prev_tx.output[0].clone());
+        psbt.inputs[0].non_witness_utxo = Some(prev_tx.clone());
+        let utxo = Utxo { txid: prev_tx.compute_txid(), outnum: 0, amount: v, keyindex, is_p2sh: false, script: Octets(spk.as_bytes().to_vec()), close_info: None, is_in_coinbase: false };
+        let msg = Message::SignWithdrawal(msgs::SignWithdrawal { utxos: Array(vec![utxo]), psbt: WithSize(StreamedPSBT::new(psbt)) });
+        let rep = pw.request(To::Root, msg);
+        let signed = match &rep {
+            Out::Ok(r) => r.as_any().downcast_ref::<msgs::SignWithdrawalReply>().is_some(),
+            _ => false,
+        };
+        st.class(format!("startup:{}:{}", if edit == 0 { "still-allowlisted" } else { "removed" }, if signed { "signed" } else { rep.tag() }));
+        if edit != 0 {
+            st.nontrivial_shape(("startup", edit, restarts, pver));
+            if signed {
+                return ctx.report(st, Violation::new(
+                    format!("C08:wire:startup-allowlist:removed-destination-signed{}", if restarts > 0 { "-after-restart" } else { "" }),
+                    format!("a destination removed from the allowlist at run time (edit {}) was paid 99 500 sat by a signed withdrawal after {} restart(s) with the same start-up configuration, although unknown destinations are declined (allowlist now {:?})", edit, restarts, pw.node().allowlist().unwrap_or_default()),
+                ));
+            }
+        } else if signed {
+            st.nontrivial_shape(("startup-control", restarts, pver));
+        }
+        Ok(())
+    }
+
     /// Wire group: the labelled transaction is requested as SignWithdrawal (utxos + streamed
     /// PSBT) from a signer built like vlsd's; the ground truth is the same as at API level.
     fn run_wire(&self, case: &Case, wg: &WireGen, st: &mut CaseStats, ctx: &Ctx) -> Result<(), Violation> {
@@ -943,17 +1033,20 @@ impl Prop for C08 {
             prop::bool::weighted(0.3),
             prop::bool::weighted(0.03),
             prop_oneof![9 => Just(None), 1 => (1u8..4, 24u8..32).prop_map(Some)],
-            (prop_oneof![3 => Just(0u8), 1 => Just(1u8), 1 => Just(2u8)], prop_oneof![5 => Just(0u8), 2 => 1u8..7], prop_oneof![7 => Just(None), 2 => wire_strat().prop_map(Some)], prop::bool::weighted(0.4)),
+            (prop_oneof![3 => Just(0u8), 1 => Just(1u8), 1 => Just(2u8)], prop_oneof![5 => Just(0u8), 2 => 1u8..7], prop_oneof![7 => Just(None), 2 => wire_strat().prop_map(Some)], prop::bool::weighted(0.4), prop_oneof![19 => Just(None), 1 => (0u8..3, 0u8..4, 0u8..3).prop_map(Some)]),
         )
-            .prop_map(|(version, inputs, outputs, chans, fee, fee_velocity_sat, max_feerate, repeats, via_approver, big_tx, storm, (restart_before, allow_edit, wire, onchain))| {
+            .prop_map(|(version, inputs, outputs, chans, fee, fee_velocity_sat, max_feerate, repeats, via_approver, big_tx, storm, (restart_before, allow_edit, wire, onchain, startup))| {
                 // a storm is only interesting with a finite fee velocity limit
                 let fee_velocity_sat = if storm.is_some() { fee_velocity_sat.or(Some(2500)) } else { fee_velocity_sat };
-                Case { version, inputs, outputs, chans, fee, fee_velocity_sat, max_feerate, repeats, via_approver, big_tx, storm, restart_before, allow_edit, onchain: onchain && wire.is_none(), wire }
+                Case { version, inputs, outputs, chans, fee, fee_velocity_sat, max_feerate, repeats, via_approver, big_tx, storm, restart_before, allow_edit, onchain: onchain && wire.is_none(), wire, startup }
             })
             .boxed()
     }
 
     fn run(&self, case: &Case, st: &mut CaseStats, ctx: &Ctx) -> Result<(), Violation> {
+        if let Some((pv, edit, restarts)) = case.startup {
+            return self.run_startup(pv, edit, restarts, st, ctx);
+        }
         if let Some(wg) = &case.wire {
             return self.run_wire(case, wg, st, ctx);
         }
